@@ -52,6 +52,16 @@ def gen_tree(rng, depth=0, budget=None, opts=None):
             size = rng.choice(opts.get("sizes", [0, 0, 1, 2, 5, 17, 100, 1000]))
             data = rng.choice([bytes(rng.randrange(256) for _ in range(min(size, 64))) * (size // 64 + 1), b"\0" * size, b"same" * (size // 4 + 1)])[:size]
             kids.append([nm.hex(), {"t": "R", "d": data.hex(), "m": rng.choice(FILE_MODES)}])
+    if rng.random() < (0.35 if depth == 0 else 0.08):
+        # a chain of directories that are empty only recursively (e1/e2/e3, possibly next to a file higher up)
+        nm = gen_name(rng, taken)
+        chain = {"t": "D", "c": []}
+        for _ in range(rng.choice([1, 2, 3, 4])):
+            inner = [[gen_name(rng, set()).hex(), chain]]
+            if rng.random() < 0.3:
+                inner.append([gen_name(rng, {bytes.fromhex(inner[0][0])}).hex(), {"t": "D", "c": []}])
+            chain = {"t": "D", "c": inner}
+        kids.append([nm.hex(), chain])
     return {"t": "D", "c": kids}
 
 
